@@ -37,6 +37,13 @@ extern ssize_t mpt_stream_push(MPT_STRUCT(stream) *stream, size_t len, const voi
 		/* error during data append */
 		if (len) {
 			post = mpt_queue_push(&stream->_wd, len, src);
+			/* message deletion: no data consumed, nothing in progress afterwards */
+			if (!src) {
+				if (post >= 0) {
+					stream->_info._fd &= ~MPT_STREAMFLAG(MesgActive);
+				}
+				return post;
+			}
 		}
 		/* terminate current message */
 		else {
